@@ -35,14 +35,12 @@ Definition status_line (r : creq) : str :=
 Definition body_bytes_of (b : cbody) : bytes :=
   match b with BNone => [] | BBytes d => d | BPieces ps => concat ps end.
 
-(* _should_write is false for an empty body (size 0): set_eof; otherwise write_with_length + write_eof *)
-Definition body_ops (b : cbody) : list wop :=
-  match b with
-  | BNone => [WSetEof]
-  | BBytes [] => [WSetEof]
-  | BBytes d => [WWrite d; WEof []]
-  | BPieces ps => map WWrite ps ++ [WEof []]
-  end.
+(* _send: if _should_write() the body goes through _write_bytes (write_with_length: one write() per piece, an empty
+   write for an empty body; then write_eof()), otherwise set_eof() *)
+Definition body_writes (b : cbody) : list wop :=
+  match b with BNone => [WWrite []] | BBytes d => [WWrite d] | BPieces ps => map WWrite ps end.
+Definition body_ops (sw : bool) (b : cbody) : list wop :=
+  if sw then body_writes b ++ [WEof []] else [WSetEof].
 
 (* the body is chunk-encoded iff self.chunked is true AND the head announces it (Transfer-Encoding in self.headers) *)
 Definition req_chunking (r : creq) : bool :=
@@ -60,14 +58,22 @@ Definition header_content_length (r : creq) : option (option N) :=
   | Some v => if nonempty v && forallb dec_digit v && (lenN v <=? int_max_str_digits) then Some (Some (parse_dec v)) else None
   end.
 
-(* _should_write (no Expect, transport not paused): body.size != 0 *)
-Definition should_write (b : cbody) : bool :=
+(* _should_write (no Expect, transport not paused): body.size != 0, or (if the code says so) the head carries a
+   Content-Length other than "0" *)
+Definition should_write_body (b : cbody) : bool :=
   match b with BNone => false | BBytes [] => false | _ => true end.
+Definition declares_length (r : creq) : bool :=
+  match first_value [67; 111; 110; 116; 101; 110; 116; 45; 76; 101; 110; 103; 116; 104] (c_headers r) with
+  | Some v => negb (list_eqb v [48])
+  | None => false
+  end.
+Definition should_write (r : creq) : bool :=
+  should_write_body (c_body r) || (should_write_on_declared_length && declares_length r).
 
 (* _send: writer.length = content_length before _write_bytes (if the code does that) *)
 Definition client_ops_len (r : creq) (cl : option N) (head : bytes) : list wop :=
   (if req_chunking r then [WEnableChunking] else []) ++ WHeaders head ::
-  (if should_write (c_body r) && client_counts_declared_length then [WSetLength cl] else []) ++ body_ops (c_body r).
+  (if should_write r && client_counts_declared_length then [WSetLength cl] else []) ++ body_ops (should_write r) (c_body r).
 Definition client_ops (r : creq) (head : bytes) : list wop :=
   client_ops_len r (match header_content_length r with Some cl => cl | None => None end) head.
 
@@ -75,7 +81,7 @@ Definition client_ops (r : creq) (head : bytes) : list wop :=
    ClientPayloadError: no write_eof, the request fails, the connection is not reused *)
 Definition body_shortfall (r : creq) : N :=
   match header_content_length r with
-  | Some (Some n) => if client_counts_declared_length && should_write (c_body r) then n - lenN (body_bytes_of (c_body r)) else 0
+  | Some (Some n) => if client_counts_declared_length && should_write r then n - lenN (body_bytes_of (c_body r)) else 0
   | _ => 0
   end.
 
@@ -283,7 +289,7 @@ Definition framing_ok (r : creq) : bool :=
 Definition length_ok (r : creq) : bool :=
   match header_content_length r with
   | None => false
-  | Some None => req_chunking r || negb (should_write (c_body r))
+  | Some None => req_chunking r || negb (should_write r)
   | Some (Some n) => negb (req_chunking r) && (n =? lenN (body_bytes (c_body r)))
   end.
 
